@@ -885,10 +885,12 @@ impl<'r> Gen<'r> {
                 self.scopes.pop();
                 // loop-carried values that shift / swap / rotate (`t = a; a = b; b = t;`): copies
                 // whose source is redefined on the back edge. The variables are declared right
-                // before the loop and logged after it, so the rotation is always observable.
+                // before the loop and logged after it, so the rotation is always observable. Register
+                // types only: rotations of u256 / b256 locals in nested loops hit the open finding
+                // C01 `witness:memcpyprop-reverse-u256-rotation-in-nested-loop` (kept as a fixed witness).
                 let mut rot_vars: Vec<(String, Ty)> = vec![];
                 if self.rng.gen_bool(0.5) {
-                    let t = crate::common::choose(self.rng, &[Ty::U64, Ty::U64, Ty::U8, Ty::U16, Ty::U32, Ty::Bool, Ty::U256, Ty::B256]).clone();
+                    let t = crate::common::choose(self.rng, &[Ty::U64, Ty::U64, Ty::U8, Ty::U16, Ty::U32, Ty::Bool]).clone();
                     let k = self.rng.gen_range(2..=3usize);
                     let mut ns = vec![];
                     for _ in 0..k {
